@@ -35,13 +35,14 @@ type IdSpec struct {
 type TrgSpec struct {
 	Set int `json:"set"`
 	Exp int `json:"exp"`
-	Log int `json:"log"` // -1: the matching log never happens
+	Log int `json:"log"` // -1: the matching log never happens (Set 0: slot unused)
 }
 
 // Uni is the static part of a scenario (record u of the spec).
 type Uni struct {
 	Member []bool    `json:"member"`
 	Act    []int     `json:"act"`
+	Gen    []int     `json:"gen"` // key generations each set may go through (0: never starts)
 	Ids    []IdSpec  `json:"ids"`
 	Trg    []TrgSpec `json:"trg"`
 }
@@ -241,7 +242,7 @@ func (w *World) Logs() []*types.Log {
 		return out
 	}
 	for j, t := range w.uni.Trg {
-		if t.Log < 0 || t.Log > MaxBlock {
+		if t.Set == 0 || t.Log < 0 || t.Log > MaxBlock {
 			continue
 		}
 		th := sha256.Sum256([]byte(fmt.Sprintf("tx-%d-%d", w.Seed, j+1)))
